@@ -57,6 +57,13 @@ CHECKS = {
           'and the priority / letter / kind tables are evaluated over all 8x8 kind pairs against base > constant > structured > derived and the letter bijection.',
   'note': 'Does not decide list order after arbitrary MoveBefore sequences beyond what the priority table implies, nor uniqueness of random identifiers (EntityGenerator::NewUID loops until insertion succeeds; trusted). Exemption: RSCore::ResetAliases re-registers all entities by design.',
  },
+ 'C07': {
+  'technique': 'typed write classification (mod-set events on the storage) + MUST-CALL refresh families on the CFG, typestate for deferred loaders over the call graph, structural order rules for the re-analysis routines',
+  'text': 'Decides the cache-refresh discipline that incremental = from-scratch requires on every path: each write of alias / definition / kind / membership in Schema and of alias / term text / term form / text definition / membership in Thesaurus '
+          'is followed before any success exit by exactly the refreshes that kind of write needs (whole-graph invalidation + full re-analysis for names and membership, per-constituent graph update + TriggerParse for one definition, term/definition graph updates + re-resolution for texts); '
+          'deferred loaders are dirty until UpdateState on every caller chain; TriggerParse/UpdateState/OnTermChange walk the full dependency order after the reset with no early exit; lazy graphs rebuild completely; ParseCst stores one consistent auditor run.',
+  'note': 'Frozen exception: Schema::SetDefinitionFor skips refresh only on the branch where FindExpr(new text) returns the constituent itself (identical syntax tree). Does not decide that the graph updater extracts exactly the mentioned globals, nor equality of results with a fresh build.',
+ },
 }
 
 _PENDING = 'rule module not yet implemented in this round; see DESIGN.md section 4 for the clauses planned'
